@@ -1,7 +1,6 @@
 SPECIFICATION Spec
 CONSTANTS
-  Table <- cTable
-  Universe <- UTier
+  Universe <- UOf
   Tier = "quick"
 INVARIANTS AInvariants Emit
 CHECK_DEADLOCK FALSE
